@@ -8,6 +8,7 @@
  "defines": ["VERIF_HALLOC", "HTTP_N=64", "VERIF_STRMAX=8"],
  "thorough_defines": ["HTTP_N=96"],
  "models": ["models/libc_string.c", "models/http_env.c"],
+ "fallback_unwind": 6,
  "timeout": 300,
  "assumptions": ["window object size <= HTTP_N (object-size parameter only; the scan is closed by a loop contract)",
    "memcmp: models/libc_string.c"]
